@@ -364,6 +364,43 @@ def native_objects_and_boundaries(ck):
     if not ok:
         fails.append({"obligation": "bounded.range_boundaries", "clause": "exactly the decays with 0 <= altitude <= 20 km (as doubles) are simulated; every other event gets exactly 0 PE and the default 1.5 deg angle",
                       "input": {"altDec": [repr(float(x)) for x in alts]}, "observed": {"simulated altitudes": [repr(float(x)) for x in sim], "numPEs": [float(x) for x in np.asarray(pe)], "expected in range": inr.tolist()}})
+    # (c) the optical response is that of the configuration at the time of the call: parameters edited on the (mutable) configuration after the
+    # object was built are the ones the next call uses
+    cfg2 = NssConfig()
+    eas2 = EAS(cfg2)
+    inb = np.array([3.0, 7.5, 12.0, 19.0])
+    v2 = {"beta": rng.uniform(0.05, 0.6, 4), "alt": inb, "E": 10 ** rng.uniform(-1, 1, 4), "lat": rng.uniform(-1, 1, 4), "lon": rng.uniform(-3, 3, 4)}
+    v2["dph"], v2["th"] = kernel_fn(v2["beta"], v2["alt"], v2["E"], v2["lat"], v2["lon"])
+    eas2.CphotAng = KernelStub(v2)
+    with np.errstate(all="ignore"):
+        eas2(v2["beta"].copy(), inb.copy(), v2["E"].copy(), v2["lat"].copy(), v2["lon"].copy())
+        cfg2.detector.optical.telescope_effective_area, cfg2.detector.optical.quantum_efficiency, cfg2.detector.optical.photo_electron_threshold = 7.0, 0.35, 25.0
+        pe2, cth2 = eas2(v2["beta"].copy(), inb.copy(), v2["E"].copy(), v2["lat"].copy(), v2["lon"].copy())
+    n += 4
+    want2 = v2["dph"] * 7.0 * 0.35
+    if not np.allclose(np.asarray(pe2, dtype=float), want2, rtol=1e-12):
+        fails.append({"obligation": "bounded.objects", "clause": "numPEs = photon density x effective area x quantum efficiency of the configuration in force at the call (a configuration edited after the EAS object was built)",
+                      "input": {"history": "EAS(cfg); call; cfg.detector.optical <- area 7.0, QE 0.35, threshold 25; call", "densities": v2["dph"].tolist()}, "observed": {"numPEs": np.asarray(pe2, dtype=float).tolist(), "expected": want2.tolist()}})
+    # (d) integer-typed decay altitudes give what the same altitudes give as doubles
+    ialt = np.array([5, 25, 10, -1, 20, 0], dtype=np.int64)
+    m3 = len(ialt)
+    v3 = {"beta": rng.uniform(0.05, 0.6, m3), "alt": ialt.astype(float), "E": 10 ** rng.uniform(-1, 1, m3), "lat": rng.uniform(-1, 1, m3), "lon": rng.uniform(-3, 3, m3)}
+    v3["dph"], v3["th"] = kernel_fn(v3["beta"], v3["alt"], v3["E"], v3["lat"], v3["lon"])
+    outs = []
+    for alt_in in (ialt.astype(float), ialt.copy(), ialt.astype(np.int32)):
+        e3 = EAS(NssConfig())
+        e3.CphotAng = KernelStub(v3)
+        try:
+            with np.errstate(all="ignore"):
+                pe3, cth3 = e3(v3["beta"].copy(), alt_in, v3["E"].copy(), v3["lat"].copy(), v3["lon"].copy())
+            outs.append((np.asarray(pe3, dtype=float), np.asarray(cth3, dtype=float)))
+        except Exception as ex:
+            outs.append(ex)
+    n += 2 * m3
+    for kind, o in zip(("int64", "int32"), outs[1:]):
+        if isinstance(o, Exception) or isinstance(outs[0], Exception) or not (np.allclose(o[0], outs[0][0], rtol=1e-12) and np.allclose(o[1], outs[0][1], rtol=1e-12)):
+            fails.append({"obligation": "bounded.range_boundaries", "clause": "decay altitudes given as integers give the results of the same altitudes given as doubles (PE counts and angles are not truncated to the altitude's type)",
+                          "input": {"altDec": ialt.tolist(), "dtype": kind}, "observed": repr(o) if isinstance(o, Exception) else {"numPEs": o[0].tolist(), "with doubles": outs[0][0].tolist(), "cos(angle)": o[1].tolist(), "with doubles ": outs[0][1].tolist()}})
     return {"evaluations": n, "failures": fails}
 
 
